@@ -79,6 +79,24 @@ Definition dispatch (kind : string) (args : list string) : string :=
         end
     | _ => BADARGS
     end
+  else if String.eqb kind "cssplit" then
+    (* cssplit <hex> <k>: Checksum of the two pieces b[:k], b[k:] of ONE buffer, then of the whole buffer.
+       model: the three values of the pure function; spec: the whole as the one's-complement combination of
+       the parts (C15_split: the second part shifted by one byte when k is odd) *)
+    match args with
+    | [h; ks] =>
+        match bytes_of_tok h, N_of_dec ks with
+        | Some b, Some kN =>
+            let k := N.to_nat kN in
+            let a := firstn k b in let t := skipn k b in
+            let c1 := checksum a in let c2 := checksum t in
+            let comb := 65535 - oc_add (65535 - c1) (65535 - checksum (if Nat.even (List.length a) then t else (0 :: t)%list)) in
+            out3 (dec_of_N c1 ++ " " ++ dec_of_N c2 ++ " " ++ dec_of_N (checksum b))
+                 (dec_of_N c1 ++ " " ++ dec_of_N c2 ++ " " ++ dec_of_N comb) "-"
+        | _, _ => BADARGS
+        end
+    | _ => BADARGS
+    end
   else BADARGS.
 
 Definition dispatch_line (l : string) : string :=
